@@ -21,13 +21,14 @@ use crate::svm::{Bank, Meta};
 use crate::{Ctx, Family};
 use ::whirlpool::state::*;
 use anchor_lang::prelude::Pubkey;
-use anchor_lang::{AccountDeserialize, AccountSerialize, InstructionData, ToAccountMetas};
+use anchor_lang::{AccountDeserialize, AccountSerialize, Discriminator, InstructionData, ToAccountMetas};
 use anchor_spl::token_2022::spl_token_2022;
 use solana_program::program_option::COption;
 use solana_program::program_pack::Pack;
 
 pub fn register(v: &mut Vec<Box<dyn Family>>) {
     v.push(Box::new(XInit));
+    v.push(Box::new(XInitAf));
 }
 
 fn hex(b: &[u8]) -> String {
@@ -172,6 +173,178 @@ fn admissible(prog22: bool, native: bool, freeze: bool, badge: bool, tlv: &[u8])
     Ok(())
 }
 
+/// (token-2022, native, freeze authority, tlv, badge kind)
+type MintSpec = (bool, bool, bool, Vec<u8>, u8);
+
+fn tokp(p22: bool) -> Pubkey {
+    if p22 {
+        anchor_spl::token_2022::ID
+    } else {
+        anchor_spl::token::ID
+    }
+}
+
+fn gen_mint(r: &mut Rng, may_native: bool, plain_bias: bool) -> String {
+    if may_native && r.chance(1, 14) {
+        return format!("1 1 0 - {}", r.pick(&[0u64, 1]));
+    }
+    let prog22 = if plain_bias { r.chance(1, 3) } else { r.chance(2, 3) };
+    let freeze = r.chance(1, 4);
+    let set = if prog22 { r.pick(EXT_SETS) } else { &[][..] };
+    let tlv = build_tlv(set, r.chance(1, 2));
+    let badge = r.pick(&[0u64, 0, 0, 0, 1, 1, 1, 1, 1, 1, 1, 1, 2, 3, 4, 5, 5, 5]);
+    format!("{} 0 {} {} {}", b(prog22), b(freeze), hex(&tlv), badge)
+}
+
+/// the world every pool-creating instruction starts from: a config (and a second one), the two mints with what
+/// sits in their badge slots, a funder, two vault keypairs, the programs and the Rent sysvar
+struct InitWorld {
+    bank: Bank,
+    cfg: Pubkey,
+    mint_a: Pubkey,
+    mint_b: Pubkey,
+    badge_a: Pubkey,
+    badge_b: Pubkey,
+    funder: Pubkey,
+    va: Pubkey,
+    vb: Pubkey,
+    rent_id: Pubkey,
+    spec_a: MintSpec,
+    spec_b: MintSpec,
+}
+
+fn parse_spec(t: &[&str], o: usize) -> MintSpec {
+    (pb(t[o]), pb(t[o + 1]), pb(t[o + 2]), unhex(t[o + 3]), t[o + 4].parse::<u8>().unwrap())
+}
+
+fn build_world(order: u8, proto: u16, sa: MintSpec, sb: MintSpec, now: i64) -> InitWorld {
+    let pid = ::whirlpool::ID;
+    let sysid = crate::svm::system_id();
+    let mut bank = Bank::new(now);
+    let cfg = k(0xD0, 1);
+    let c = WhirlpoolsConfig { fee_authority: k(0xD8, 1), collect_protocol_fees_authority: k(0xD8, 2), reward_emissions_super_authority: k(0xD8, 3), default_protocol_fee_rate: proto, feature_flags: 0 };
+    let mut d = vec![];
+    c.try_serialize(&mut d).unwrap();
+    d.resize(WhirlpoolsConfig::LEN, 0);
+    bank.set(cfg, pid, 10_000_000, d);
+    // the two mint keys realise `order`; a native slot is the Token-2022 native mint's address
+    let native_id = spl_token_2022::native_mint::ID;
+    let (lo, hi) = (k(0x81, 0x01), k(0x81, 0xFE));
+    let (mint_a, mint_b) = match (order, sa.1, sb.1) {
+        (2, true, _) => (native_id, native_id),
+        (2, false, _) => (lo, lo),
+        (0, true, _) => (native_id, hi),
+        (0, _, true) => (lo, native_id),
+        (0, _, _) => (lo, hi),
+        (_, true, _) => (native_id, lo),
+        (_, _, true) => (hi, native_id),
+        _ => (hi, lo),
+    };
+    assert!(match order {
+        0 => mint_a < mint_b,
+        1 => mint_a > mint_b,
+        _ => mint_a == mint_b,
+    });
+    let (spec_a, spec_b) = (sa.clone(), if order == 2 { sa.clone() } else { sb.clone() });
+    bank.set(mint_a, tokp(spec_a.0), 5_000_000, mint_account(spec_a.0, spec_a.2, &spec_a.3));
+    if order != 2 {
+        bank.set(mint_b, tokp(spec_b.0), 5_000_000, mint_account(spec_b.0, spec_b.2, &spec_b.3));
+    }
+    let cfg2 = k(0xD0, 2);
+    let badge_pda = |c: &Pubkey, m: &Pubkey| Pubkey::find_program_address(&[b"token_badge", c.as_ref(), m.as_ref()], &pid).0;
+    let badge_data = |c: Pubkey, m: Pubkey, attr: bool| {
+        let tb = TokenBadge { whirlpools_config: c, token_mint: m, attribute_require_non_transferable_position: attr };
+        let mut d = vec![];
+        tb.try_serialize(&mut d).unwrap();
+        d.resize(TokenBadge::LEN, 0);
+        d
+    };
+    let slot_badge = |bank: &mut Bank, m: Pubkey, kind: u8| -> Pubkey {
+        let at = badge_pda(&cfg, &m);
+        match kind {
+            1 => bank.set(at, pid, 5_000_000, badge_data(cfg, m, false)),
+            5 => bank.set(at, pid, 5_000_000, badge_data(cfg, m, true)),
+            2 => {
+                let other = badge_pda(&cfg2, &m);
+                bank.set(other, pid, 5_000_000, badge_data(cfg2, m, false));
+                return other;
+            }
+            3 => bank.set(at, pid, 5_000_000, badge_data(cfg2, m, false)),
+            4 => bank.set(at, k(0xD7, 7), 5_000_000, badge_data(cfg, m, false)),
+            _ => {}
+        }
+        at
+    };
+    let badge_a = slot_badge(&mut bank, mint_a, spec_a.4);
+    let badge_b = if order == 2 { badge_a } else { slot_badge(&mut bank, mint_b, spec_b.4) };
+    let funder = k(0xD3, 1);
+    bank.set(funder, sysid, 100_000_000_000, vec![]);
+    let (va, vb) = (k(0xD2, 1), k(0xD2, 2));
+    bank.set_program(sysid);
+    bank.set_program(anchor_spl::token::ID);
+    bank.set_program(anchor_spl::token_2022::ID);
+    let rent_id = anchor_lang::solana_program::sysvar::rent::ID;
+    {
+        let r = anchor_lang::solana_program::rent::Rent::default();
+        let mut d = vec![];
+        d.extend_from_slice(&r.lamports_per_byte_year.to_le_bytes());
+        d.extend_from_slice(&r.exemption_threshold.to_le_bytes());
+        d.push(r.burn_percent);
+        bank.set(rent_id, anchor_lang::solana_program::sysvar::ID, 1_009_200, d);
+    }
+    InitWorld { bank, cfg, mint_a, mint_b, badge_a, badge_b, funder, va, vb, rent_id, spec_a, spec_b }
+}
+
+/// C19 / C15 oracles on a pool that was created; returns (fee rate, protocol fee rate, price, tick, nt flag)
+#[allow(clippy::too_many_arguments)]
+fn judge_created(w0: &InitWorld, bank: &Bank, pool: &Pubkey, what: &str, ts: u16, fee: u16, proto: u16, price: u128, conds_ok: bool, ctx: &mut Ctx) -> Option<(u16, u16, u128, i32, bool)> {
+    let has_badge = |kind: u8| kind == 1 || kind == 5;
+    let (sa, sb) = (&w0.spec_a, &w0.spec_b);
+    if !conds_ok {
+        ctx.viol(format!("C19 {}: a pool was created with out-of-bound / inconsistent parameters (price {}, spacing {}, fee {}, protocol fee {})", what, price, ts, fee, proto));
+    }
+    if sa.4 == 2 || sb.4 == 2 {
+        ctx.viol(format!("C15 {} accepted a token badge account that is not the badge of this config and mint", what));
+    }
+    if let Err(e) = admissible(sa.0, sa.1, sa.2, has_badge(sa.4), &sa.3) {
+        ctx.viol(format!("C19 {}: a pool was created over mint A although: {}", what, e));
+    }
+    if let Err(e) = admissible(sb.0, sb.1, sb.2, has_badge(sb.4), &sb.3) {
+        ctx.viol(format!("C19 {}: a pool was created over mint B although: {}", what, e));
+    }
+    match Whirlpool::try_deserialize(&mut &bank.data(pool)[..]) {
+        Ok(w) => {
+            if w.whirlpools_config != w0.cfg || w.token_mint_a != w0.mint_a || w.token_mint_b != w0.mint_b || w.token_vault_a != w0.va || w.token_vault_b != w0.vb || w.tick_spacing != ts || w.fee_rate != fee || w.protocol_fee_rate != proto || { w.sqrt_price } != price || w.liquidity != 0 {
+                ctx.viol(format!("C19/C15 {}: the created pool does not record the accounts and parameters it was created with", what));
+            }
+            if w.tick_current_index != ::whirlpool::math::tick_index_from_sqrt_price(&price) {
+                ctx.viol("C19 the created pool's tick index is not the tick of its price".to_string());
+            }
+            for (v, m, p22) in [(w0.va, w0.mint_a, sa.0), (w0.vb, w0.mint_b, sb.0)] {
+                let a = bank.get(&v);
+                if a.owner != tokp(p22) || a.data.len() < 165 || a.data[0..32] != m.to_bytes() || a.data[32..64] != pool.to_bytes() {
+                    ctx.viol("C15 a vault of the created pool is not a token account of the pool's mint owned by the pool".to_string());
+                }
+            }
+            let nt = w.is_non_transferable_position_required();
+            if nt != (sa.4 == 5 || sb.4 == 5) {
+                ctx.viol("the created pool's non-transferable-position flag is not the attribute of its mints' badges".to_string());
+            }
+            Some((w.fee_rate, w.protocol_fee_rate, { w.sqrt_price }, w.tick_current_index, nt))
+        }
+        Err(_) => {
+            ctx.viol(format!("{} succeeded without creating the pool account", what));
+            None
+        }
+    }
+}
+
+fn would_be_admissible(w0: &InitWorld) -> bool {
+    let has_badge = |kind: u8| kind == 1 || kind == 5;
+    let (sa, sb) = (&w0.spec_a, &w0.spec_b);
+    sa.4 != 2 && sb.4 != 2 && admissible(sa.0, sa.1, sa.2, has_badge(sa.4), &sa.3).is_ok() && admissible(sb.0, sb.1, sb.2, has_badge(sb.4), &sb.3).is_ok()
+}
+
 struct XInit;
 impl Family for XInit {
     fn name(&self) -> &'static str {
@@ -187,19 +360,8 @@ impl Family for XInit {
         let order = r.pick(&[0u64, 0, 0, 0, 0, 0, 0, 0, 0, 0, 1, 2]);
         let fee = r.pick(&[0u64, 100, 3000, 10000, 59999, 60000, 60000, 60000, 60001, 65535]);
         let proto = r.pick(&[0u64, 300, 1300, 2499, 2500, 2500, 2500, 2501, 65535]);
-        let mint = |r: &mut Rng, may_native: bool| -> String {
-            if may_native && r.chance(1, 14) {
-                return format!("1 1 0 - {}", r.pick(&[0u64, 1]));
-            }
-            let prog22 = r.chance(2, 3);
-            let freeze = r.chance(1, 4);
-            let set = if prog22 { r.pick(EXT_SETS) } else { &[][..] };
-            let tlv = build_tlv(set, r.chance(1, 2));
-            let badge = r.pick(&[0u64, 0, 0, 0, 1, 1, 1, 1, 1, 1, 1, 1, 2, 3, 4, 5, 5, 5]);
-            format!("{} 0 {} {} {}", b(prog22), b(freeze), hex(&tlv), badge)
-        };
-        let ma = mint(r, true);
-        let mb = if order == 2 { ma.clone() } else { mint(r, false) };
+        let ma = gen_mint(r, true, false);
+        let mb = if order == 2 { ma.clone() } else { gen_mint(r, false, false) };
         format!("xinit {} {} {} {} {} {} {} {}", ts, tier_ts, price, order, fee, proto, ma, mb)
     }
     fn run(&self, line: &str, ctx: &mut Ctx) -> String {
@@ -219,156 +381,47 @@ impl XInit {
         let order: u8 = t[4].parse().unwrap();
         let fee: u16 = t[5].parse().unwrap();
         let proto: u16 = t[6].parse().unwrap();
-        // (token-2022, native, freeze authority, tlv, badge kind)
-        let spec = |o: usize| (pb(t[o]), pb(t[o + 1]), pb(t[o + 2]), unhex(t[o + 3]), t[o + 4].parse::<u8>().unwrap());
-        let (sa, sb) = (spec(7), spec(12));
         let pid = ::whirlpool::ID;
-        let sysid = crate::svm::system_id();
-        let mut bank = Bank::new(1_000_000);
-        let cfg = k(0xD0, 1);
-        let c = WhirlpoolsConfig { fee_authority: k(0xD8, 1), collect_protocol_fees_authority: k(0xD8, 2), reward_emissions_super_authority: k(0xD8, 3), default_protocol_fee_rate: proto, feature_flags: 0 };
-        let mut d = vec![];
-        c.try_serialize(&mut d).unwrap();
-        d.resize(WhirlpoolsConfig::LEN, 0);
-        bank.set(cfg, pid, 10_000_000, d);
+        let mut w0 = build_world(order, proto, parse_spec(&t, 7), parse_spec(&t, 12), 1_000_000);
         let tier = k(0xD1, 1);
-        let ft = FeeTier { whirlpools_config: cfg, tick_spacing: tier_ts, default_fee_rate: fee };
+        let ft = FeeTier { whirlpools_config: w0.cfg, tick_spacing: tier_ts, default_fee_rate: fee };
         let mut d = vec![];
         ft.try_serialize(&mut d).unwrap();
         d.resize(FeeTier::LEN, 0);
-        bank.set(tier, pid, 10_000_000, d);
-        // the two mint keys realise `order`; a native slot is the Token-2022 native mint's address
-        let native_id = spl_token_2022::native_mint::ID;
-        let tokp = |p22: bool| if p22 { anchor_spl::token_2022::ID } else { anchor_spl::token::ID };
-        let (lo, hi) = (k(0x81, 0x01), k(0x81, 0xFE));
-        let (mint_a, mint_b) = match (order, sa.1, sb.1) {
-            (2, true, _) => (native_id, native_id),
-            (2, false, _) => (lo, lo),
-            (0, true, _) => (native_id, hi),
-            (0, _, true) => (lo, native_id),
-            (0, _, _) => (lo, hi),
-            (_, true, _) => (native_id, lo),
-            (_, _, true) => (hi, native_id),
-            _ => (hi, lo),
-        };
-        assert!(match order { 0 => mint_a < mint_b, 1 => mint_a > mint_b, _ => mint_a == mint_b });
-        let (spec_a, spec_b) = (&sa, if order == 2 { &sa } else { &sb });
-        bank.set(mint_a, tokp(spec_a.0), 5_000_000, mint_account(spec_a.0, spec_a.2, &spec_a.3));
-        if order != 2 {
-            bank.set(mint_b, tokp(spec_b.0), 5_000_000, mint_account(spec_b.0, spec_b.2, &spec_b.3));
-        }
-        let cfg2 = k(0xD0, 2);
-        let badge_pda = |c: &Pubkey, m: &Pubkey| Pubkey::find_program_address(&[b"token_badge", c.as_ref(), m.as_ref()], &pid).0;
-        let badge_data = |c: Pubkey, m: Pubkey, attr: bool| {
-            let tb = TokenBadge { whirlpools_config: c, token_mint: m, attribute_require_non_transferable_position: attr };
-            let mut d = vec![];
-            tb.try_serialize(&mut d).unwrap();
-            d.resize(TokenBadge::LEN, 0);
-            d
-        };
-        let mut slot_badge = |bank: &mut Bank, m: Pubkey, kind: u8| -> Pubkey {
-            let at = badge_pda(&cfg, &m);
-            match kind {
-                1 => bank.set(at, pid, 5_000_000, badge_data(cfg, m, false)),
-                5 => bank.set(at, pid, 5_000_000, badge_data(cfg, m, true)),
-                2 => {
-                    let other = badge_pda(&cfg2, &m);
-                    bank.set(other, pid, 5_000_000, badge_data(cfg2, m, false));
-                    return other;
-                }
-                3 => bank.set(at, pid, 5_000_000, badge_data(cfg2, m, false)),
-                4 => bank.set(at, k(0xD7, 7), 5_000_000, badge_data(cfg, m, false)),
-                _ => {}
-            }
-            at
-        };
-        let badge_a = slot_badge(&mut bank, mint_a, spec_a.4);
-        let badge_b = if order == 2 { badge_a } else { slot_badge(&mut bank, mint_b, spec_b.4) };
-        let funder = k(0xD3, 1);
-        bank.set(funder, sysid, 100_000_000_000, vec![]);
-        let (va, vb) = (k(0xD2, 1), k(0xD2, 2));
-        let pool = Pubkey::find_program_address(&[b"whirlpool", cfg.as_ref(), mint_a.as_ref(), mint_b.as_ref(), &ts.to_le_bytes()], &pid).0;
-        bank.set_program(sysid);
-        bank.set_program(anchor_spl::token::ID);
-        bank.set_program(anchor_spl::token_2022::ID);
-        let rent_id = anchor_lang::solana_program::sysvar::rent::ID;
-        {
-            let r = anchor_lang::solana_program::rent::Rent::default();
-            let mut d = vec![];
-            d.extend_from_slice(&r.lamports_per_byte_year.to_le_bytes());
-            d.extend_from_slice(&r.exemption_threshold.to_le_bytes());
-            d.push(r.burn_percent);
-            bank.set(rent_id, anchor_lang::solana_program::sysvar::ID, 1_009_200, d);
-        }
+        w0.bank.set(tier, pid, 10_000_000, d);
+        let pool = Pubkey::find_program_address(&[b"whirlpool", w0.cfg.as_ref(), w0.mint_a.as_ref(), w0.mint_b.as_ref(), &ts.to_le_bytes()], &pid).0;
         let acc = ::whirlpool::accounts::InitializePoolV2 {
-            whirlpools_config: cfg,
-            token_mint_a: mint_a,
-            token_mint_b: mint_b,
-            token_badge_a: badge_a,
-            token_badge_b: badge_b,
-            funder,
+            whirlpools_config: w0.cfg,
+            token_mint_a: w0.mint_a,
+            token_mint_b: w0.mint_b,
+            token_badge_a: w0.badge_a,
+            token_badge_b: w0.badge_b,
+            funder: w0.funder,
             whirlpool: pool,
-            token_vault_a: va,
-            token_vault_b: vb,
+            token_vault_a: w0.va,
+            token_vault_b: w0.vb,
             fee_tier: tier,
-            token_program_a: tokp(spec_a.0),
-            token_program_b: tokp(spec_b.0),
-            system_program: sysid,
-            rent: rent_id,
+            token_program_a: tokp(w0.spec_a.0),
+            token_program_b: tokp(w0.spec_b.0),
+            system_program: crate::svm::system_id(),
+            rent: w0.rent_id,
         };
         let metas: Vec<Meta> = acc.to_account_metas(None).iter().map(Meta::from).collect();
         let data = ::whirlpool::instruction::InitializePoolV2 { tick_spacing: ts, initial_sqrt_price: price }.data();
-        let before = bank.clone();
+        let mut bank = w0.bank.clone();
         let (res, out) = bank.execute(&metas, &data);
         let conds_ok = order == 0 && price >= 4295048016 && price <= 79226673515401279992447579055 && ts == tier_ts && fee <= 60000 && proto <= 2500;
-        let has_badge = |kind: u8| kind == 1 || kind == 5;
-        let adm_a = admissible(spec_a.0, spec_a.1, spec_a.2, has_badge(spec_a.4), &spec_a.3);
-        let adm_b = admissible(spec_b.0, spec_b.1, spec_b.2, has_badge(spec_b.4), &spec_b.3);
-        let foreign_badge = spec_a.4 == 2 || spec_b.4 == 2;
         match res {
             Ok(()) => {
                 ctx.tag("ok");
                 ctx.nontrivial(line);
-                if !conds_ok {
-                    ctx.viol(format!("C19 a pool was created with out-of-bound / inconsistent parameters (order {}, price {}, spacing {} vs tier {}, fee {}, protocol fee {})", order, price, ts, tier_ts, fee, proto));
-                }
-                if foreign_badge {
-                    ctx.viol("C15 initialize_pool_v2 accepted a token badge account that is not the badge of this config and mint".to_string());
-                }
-                if let Err(e) = &adm_a {
-                    ctx.viol(format!("C19 a pool was created over mint A although: {}", e));
-                }
-                if let Err(e) = &adm_b {
-                    ctx.viol(format!("C19 a pool was created over mint B although: {}", e));
-                }
-                match Whirlpool::try_deserialize(&mut &bank.data(&pool)[..]) {
-                    Ok(w) => {
-                        if w.whirlpools_config != cfg || w.token_mint_a != mint_a || w.token_mint_b != mint_b || w.token_vault_a != va || w.token_vault_b != vb || w.tick_spacing != ts || w.fee_rate != fee || w.protocol_fee_rate != proto || { w.sqrt_price } != price || w.liquidity != 0 {
-                            ctx.viol("C19/C15 the created pool does not record the accounts and parameters it was created with".to_string());
-                        }
-                        if w.tick_current_index != ::whirlpool::math::tick_index_from_sqrt_price(&price) {
-                            ctx.viol("C19 the created pool's tick index is not the tick of its price".to_string());
-                        }
-                        for (v, m, p22) in [(va, mint_a, spec_a.0), (vb, mint_b, spec_b.0)] {
-                            let a = bank.get(&v);
-                            if a.owner != tokp(p22) || a.data.len() < 165 || a.data[0..32] != m.to_bytes() || a.data[32..64] != pool.to_bytes() {
-                                ctx.viol("C15 a vault of the created pool is not a token account of the pool's mint owned by the pool".to_string());
-                            }
-                        }
-                        let nt = w.is_non_transferable_position_required();
-                        if nt != (spec_a.4 == 5 || spec_b.4 == 5) {
-                            ctx.viol("the created pool's non-transferable-position flag is not the attribute of its mints' badges".to_string());
-                        }
-                        format!("ok {} {} {} {} {}", w.fee_rate, w.protocol_fee_rate, { w.sqrt_price }, w.tick_current_index, b(nt))
-                    }
-                    Err(_) => {
-                        ctx.viol("initialize_pool_v2 succeeded without creating the pool account".to_string());
-                        "ok".to_string()
-                    }
+                match judge_created(&w0, &bank, &pool, "initialize_pool_v2", ts, fee, proto, price, conds_ok, ctx) {
+                    Some((f, p, pr, tk, nt)) => format!("ok {} {} {} {} {}", f, p, pr, tk, b(nt)),
+                    None => "ok".to_string(),
                 }
             }
             Err(e) => {
-                if bank.accts != before.accts {
+                if bank.accts != w0.bank.accts {
                     ctx.viol("a failed initialize_pool_v2 changed account state".to_string());
                 }
                 let name = crate::ix::err_name(&e, &out.logs);
@@ -376,12 +429,218 @@ impl XInit {
                 if std::env::var("WPH_LOGS").is_ok() {
                     eprintln!("xinit: {:?} {}\n{}", e, name, out.logs.join("\n"));
                 }
-                if conds_ok && !foreign_badge && adm_a.is_ok() && adm_b.is_ok() {
+                if conds_ok && would_be_admissible(&w0) {
                     // everything the property asks for holds: the refusal must come from the token program (vault creation)
                     ctx.tag("refused_although_admissible");
-                    if std::env::var("WPH_LOGS").is_ok() {
-                        eprintln!("xinit refused: {} {:?}\n{}", line, e, out.logs.join("\n"));
+                }
+                format!("err {}", name)
+            }
+        }
+    }
+}
+
+// ------------------------------------------------------------------------------------------------
+//   xinitaf <price> <order> <proto> <now> <te | -> <authMode> <permissioned> <ts> <fee> <fp dp rf cf mv gs th> <slot A> <slot B>
+//
+// initialize_pool_with_adaptive_fee through the real entrypoint: the whirlpool AND its Oracle are created by
+// Anchor's `init`; the adaptive-fee tier (permissioned = it names an initialize-pool authority) carries the
+// spacing, the base fee rate and the seven adaptive-fee constants, valid or not.
+// authMode: 0 the tier's authority signs (any key for a permission-less tier) · 1 a stranger signs · 2 the key in
+// the authority slot does not sign.  te = requested trade-enable time.
+// Oracles (C19, C14, C17): a pool that gets created satisfies everything `xinit` asks, its Oracle records the
+// pool, the requested trade-enable time (0 if none) — accepted only from a permissioned tier, ≤ 72 h ahead, ≤ 30 s
+// back — and the tier's constants, which satisfy the published validity rules (checked independently), with the
+// adaptive-fee variables zero.
+// ------------------------------------------------------------------------------------------------
+struct XInitAf;
+
+fn constants_valid(ts: u64, c: &[u64; 7]) -> bool {
+    let (fp, dp, rf, cf, mv, gs, th) = (c[0], c[1], c[2], c[3], c[4], c[5], c[6]);
+    fp >= 1 && dp > fp && cf < 100_000 && mv.checked_mul(gs).map_or(false, |x| x <= u32::MAX as u64) && rf < 10_000 && gs >= 1 && gs <= ts && ts % gs == 0 && th >= 1 && th <= ts * 88
+}
+
+impl Family for XInitAf {
+    fn name(&self) -> &'static str {
+        "xinitaf"
+    }
+    fn gen(&self, r: &mut Rng, _idx: u64) -> String {
+        let ts = r.pick(&[1u64, 2, 8, 64, 128, 256, 32896]);
+        let price = match r.below(8) {
+            0 => r.pick(&[4295048015u128, 4295048016, 79226673515401279992447579055, 79226673515401279992447579056]),
+            _ => r.sqrt_price(),
+        };
+        let order = r.pick(&[0u64, 0, 0, 0, 0, 0, 0, 0, 0, 0, 0, 0, 1, 2]);
+        let fee = r.pick(&[0u64, 100, 3000, 10000, 60000, 60000, 60001]);
+        let proto = r.pick(&[0u64, 300, 2500, 2500, 2501]);
+        let now = r.pick(&[0u64, 100, 1_000_000, 1_700_000_000]);
+        let perm = r.chance(3, 4);
+        let te = match r.below(16) {
+            0..=6 => "-".to_string(),
+            7 | 8 => now.to_string(),
+            9 | 10 => (now + r.pick(&[1u64, 3600, 259_199, 259_200])).to_string(),
+            11 => (now + r.pick(&[259_201u64, 1_000_000])).to_string(),
+            12 | 13 => now.saturating_sub(r.pick(&[1u64, 29, 30])).to_string(),
+            14 => now.saturating_sub(r.pick(&[31u64, 100_000])).to_string(),
+            _ => r.pick(&[0u64, u64::MAX]).to_string(),
+        };
+        let auth = r.pick(&[0u8, 0, 0, 0, 0, 0, 0, 0, 0, 0, 1, 1, 2]);
+        // constants: mostly valid for this spacing, each rule broken now and then
+        let divisors: Vec<u64> = (1..=ts.min(64)).filter(|d| ts % d == 0).collect();
+        let gs = if ts == 32896 { r.pick(&[1u64, 2, 64, 257, 32896]) } else { r.pick(&divisors) };
+        let mut c = [r.pick(&[1u64, 30, 60]), 0, r.pick(&[0u64, 500, 9999]), r.pick(&[0u64, 4000, 99999]), r.pick(&[0u64, 350_000, (u32::MAX as u64) / gs]), gs, 1 + r.below((ts * 88).min(65535))];
+        c[1] = c[0] + r.pick(&[1u64, 600]);
+        if r.chance(1, 5) {
+            match r.below(8) {
+                0 => c[0] = 0,
+                1 => c[1] = c[0],
+                2 => c[2] = 10_000,
+                3 => c[3] = 100_000,
+                4 => c[4] = if gs >= 2 { r.pick(&[(u32::MAX as u64) / gs + 1, u32::MAX as u64]) } else { c[4] },
+                5 => c[5] = if r.chance(1, 2) { 0 } else { (ts + 1).min(65535) },
+                6 => c[6] = if r.chance(1, 2) { 0 } else { (ts * 88 + 1).min(65535) },
+                _ => c[5] = if ts >= 3 { ts - 1 } else { 0 },
+            }
+        }
+        let ma = gen_mint(r, true, true);
+        let mb = if order == 2 { ma.clone() } else { gen_mint(r, false, true) };
+        format!("xinitaf {} {} {} {} {} {} {} {} {} {} {} {} {} {} {} {} {} {}", price, order, proto, now, te, auth, b(perm), ts, fee, c[0], c[1], c[2], c[3], c[4], c[5], c[6], ma, mb)
+    }
+    fn run(&self, line: &str, ctx: &mut Ctx) -> String {
+        match std::panic::catch_unwind(std::panic::AssertUnwindSafe(|| self.run_inner(line, ctx))) {
+            Ok(s) => s,
+            Err(_) => "err".to_string(),
+        }
+    }
+}
+
+impl XInitAf {
+    fn run_inner(&self, line: &str, ctx: &mut Ctx) -> String {
+        let t = toks(line);
+        let price = p128(t[1]);
+        let order: u8 = t[2].parse().unwrap();
+        let proto: u16 = t[3].parse().unwrap();
+        let now: u64 = t[4].parse().unwrap();
+        let te: Option<u64> = if t[5] == "-" { None } else { Some(t[5].parse().unwrap()) };
+        let auth_mode: u8 = t[6].parse().unwrap();
+        let perm = pb(t[7]);
+        let ts: u16 = t[8].parse().unwrap();
+        let fee: u16 = t[9].parse().unwrap();
+        let mut c = [0u64; 7];
+        for i in 0..7 {
+            c[i] = t[10 + i].parse().unwrap();
+        }
+        let pid = ::whirlpool::ID;
+        let sysid = crate::svm::system_id();
+        let mut w0 = build_world(order, proto, parse_spec(&t, 17), parse_spec(&t, 22), now as i64);
+        let tier_auth = k(0xD4, 1);
+        let stranger = k(0xD4, 2);
+        for kk in [tier_auth, stranger] {
+            w0.bank.set(kk, sysid, 1_000_000, vec![]);
+        }
+        let fee_tier_index: u16 = 1024 + (ts % 1000);
+        let tier = k(0xD1, 2);
+        let aft = AdaptiveFeeTier {
+            whirlpools_config: w0.cfg,
+            fee_tier_index,
+            tick_spacing: ts,
+            initialize_pool_authority: if perm { tier_auth } else { Pubkey::default() },
+            delegated_fee_authority: Pubkey::default(),
+            default_base_fee_rate: fee,
+            filter_period: c[0] as u16,
+            decay_period: c[1] as u16,
+            reduction_factor: c[2] as u16,
+            adaptive_fee_control_factor: c[3] as u32,
+            max_volatility_accumulator: c[4] as u32,
+            tick_group_size: c[5] as u16,
+            major_swap_threshold_ticks: c[6] as u16,
+        };
+        let mut d = vec![];
+        aft.try_serialize(&mut d).unwrap();
+        d.resize(AdaptiveFeeTier::LEN, 0);
+        w0.bank.set(tier, pid, 10_000_000, d);
+        let pool = Pubkey::find_program_address(&[b"whirlpool", w0.cfg.as_ref(), w0.mint_a.as_ref(), w0.mint_b.as_ref(), &fee_tier_index.to_le_bytes()], &pid).0;
+        let oracle = Pubkey::find_program_address(&[b"oracle", pool.as_ref()], &pid).0;
+        let signer_key = if auth_mode == 1 { stranger } else { tier_auth };
+        let acc = ::whirlpool::accounts::InitializePoolWithAdaptiveFee {
+            whirlpools_config: w0.cfg,
+            token_mint_a: w0.mint_a,
+            token_mint_b: w0.mint_b,
+            token_badge_a: w0.badge_a,
+            token_badge_b: w0.badge_b,
+            funder: w0.funder,
+            initialize_pool_authority: signer_key,
+            whirlpool: pool,
+            oracle,
+            token_vault_a: w0.va,
+            token_vault_b: w0.vb,
+            adaptive_fee_tier: tier,
+            token_program_a: tokp(w0.spec_a.0),
+            token_program_b: tokp(w0.spec_b.0),
+            system_program: sysid,
+            rent: w0.rent_id,
+        };
+        let mut metas: Vec<Meta> = acc.to_account_metas(None).iter().map(Meta::from).collect();
+        if auth_mode == 2 {
+            for m in metas.iter_mut() {
+                if m.key == signer_key {
+                    m.signer = false;
+                }
+            }
+        }
+        let data = ::whirlpool::instruction::InitializePoolWithAdaptiveFee { initial_sqrt_price: price, trade_enable_timestamp: te }.data();
+        let mut bank = w0.bank.clone();
+        let (res, out) = bank.execute(&metas, &data);
+        let te_ok = match te {
+            None => true,
+            Some(x) => perm && if x > now { x - now <= 72 * 3600 } else { now - x <= 30 },
+        };
+        let conds_ok = order == 0 && price >= 4295048016 && price <= 79226673515401279992447579055 && fee <= 60000 && proto <= 2500 && ts > 0;
+        match res {
+            Ok(()) => {
+                ctx.tag("ok");
+                ctx.nontrivial(line);
+                if auth_mode == 2 || (perm && auth_mode == 1) {
+                    ctx.viol(format!("C04 initialize_pool_with_adaptive_fee on a permissioned tier succeeded without the tier's authority signing (mode {})", auth_mode));
+                }
+                if !te_ok {
+                    ctx.viol(format!("C17/C14 a pool was created with trade-enable time {:?} at clock {} (permissioned tier: {})", te, now, perm));
+                }
+                if !constants_valid(ts as u64, &c) {
+                    ctx.viol(format!("C19 a pool was created with adaptive-fee constants {:?} that break the validity rules for spacing {}", c, ts));
+                }
+                let od = bank.data(&oracle);
+                let mut te_rec = u64::MAX;
+                if bank.get(&oracle).owner != pid || od.len() != Oracle::LEN || od[0..8] != *Oracle::DISCRIMINATOR {
+                    ctx.viol("C14 the created pool has no Oracle account of the program".to_string());
+                } else {
+                    let o: &Oracle = bytemuck::from_bytes(&od[8..8 + std::mem::size_of::<Oracle>()]);
+                    te_rec = o.trade_enable_timestamp;
+                    let k_ = o.adaptive_fee_constants;
+                    let v = o.adaptive_fee_variables;
+                    let same = k_.filter_period as u64 == c[0] && k_.decay_period as u64 == c[1] && k_.reduction_factor as u64 == c[2] && k_.adaptive_fee_control_factor as u64 == c[3] && k_.max_volatility_accumulator as u64 == c[4] && k_.tick_group_size as u64 == c[5] && k_.major_swap_threshold_ticks as u64 == c[6];
+                    if o.whirlpool != pool || te_rec != te.unwrap_or(0) || !same {
+                        ctx.viol("C14 the created Oracle does not record its pool, the requested trade-enable time and the tier's constants".to_string());
                     }
+                    if v.last_reference_update_timestamp != 0 || v.last_major_swap_timestamp != 0 || v.volatility_reference != 0 || v.tick_group_index_reference != 0 || v.volatility_accumulator != 0 {
+                        ctx.viol("C14 the created Oracle's adaptive-fee variables are not zero".to_string());
+                    }
+                }
+                match judge_created(&w0, &bank, &pool, "initialize_pool_with_adaptive_fee", ts, fee, proto, price, conds_ok, ctx) {
+                    Some((f, p, pr, tk, nt)) => format!("ok {} {} {} {} {} {}", f, p, pr, tk, b(nt), te_rec),
+                    None => "ok".to_string(),
+                }
+            }
+            Err(e) => {
+                if bank.accts != w0.bank.accts {
+                    ctx.viol("a failed initialize_pool_with_adaptive_fee changed account state".to_string());
+                }
+                let name = crate::ix::err_name(&e, &out.logs);
+                ctx.tag(&format!("err_{}", name.chars().take(28).collect::<String>()));
+                if std::env::var("WPH_LOGS").is_ok() {
+                    eprintln!("xinitaf: {:?} {}\n{}", e, name, out.logs.join("\n"));
+                }
+                if conds_ok && te_ok && constants_valid(ts as u64, &c) && auth_mode != 2 && !(perm && auth_mode == 1) && would_be_admissible(&w0) {
+                    ctx.tag("refused_although_admissible");
                 }
                 format!("err {}", name)
             }
